@@ -24,9 +24,9 @@ Example C19_example : snd (run empty_env [AddV [97%N] (VBool true); AddF [65%N] 
   [OUnit; OUnit; OUnit; OVal (VBool false); OFn [65%N] 1%N].
 Proof. reflexivity. Qed.
 
-(* the key: name.to_lowercase() through the case tables regenerated from the toolchain (every script, one-to-many mappings included; names with a capital sigma are outside the model).
+(* the key: name.to_lowercase() through the case tables regenerated from the toolchain (every script, one-to-many mappings included; the final-sigma rule included).
    Folding is idempotent - a stored key is its own key - so a name and its lower-cased spelling always address the same entry *)
-Require Import GenUnicode Builtins CaseFacts.
+Require Import GenUnicode CaseModel Builtins CaseFacts.
 Theorem C19_fold_idempotent : forall n, fold_name (fold_name n) = fold_name n.
 Proof. exact fold_name_idem. Qed.
 Theorem C19_lowercased_spelling_same_entry : forall s n, q_var s (fold_name n) = q_var s n /\ q_fn s (fold_name n) = q_fn s n.
